@@ -22,8 +22,10 @@ REPO = os.environ.get("VERIF_REPO", "/repo")
 SPEC = os.path.join(VERIF, "spec")
 HARNESS = os.path.join(VERIF, "harness")
 BUILD = os.path.join(VERIF, ".build")
-EVIDENCE = os.path.join(VERIF, "evidence")
-REPLAYS = os.path.join(VERIF, "replays")
+# VERIF_OUT (development aid, seeded-change evaluation): evidence and replay files of the run go there
+_OUT = os.environ.get("VERIF_OUT") or VERIF
+EVIDENCE = os.path.join(_OUT, "evidence")
+REPLAYS = os.path.join(_OUT, "replays")
 KNOWN = os.path.join(VERIF, "known-findings.txt")
 
 GOENV = dict(
@@ -63,18 +65,31 @@ def go_build(cmd_pkg, name=None, tags="verif"):
     """Build harness/cmd/<cmd_pkg> against /repo's current working tree. Returns the binary path.
     Serialised by a file lock (several checks may run in parallel)."""
     name = name or cmd_pkg
-    os.makedirs(BUILD, exist_ok=True)
-    out = os.path.join(BUILD, name)
-    lock = open(os.path.join(BUILD, ".lock"), "w")
+    build_dir, modfile = BUILD, None
+    if os.path.realpath(REPO) != "/repo":
+        # development aid (seeded-change evaluation in a scratch worktree, VERIF_REPO=<dir>): same sources,
+        # the module replacement points at that tree; binaries go to their own directory
+        import hashlib
+        tag = hashlib.sha256(os.path.realpath(REPO).encode()).hexdigest()[:10]
+        build_dir = os.path.join(BUILD, "alt-" + tag)
+        os.makedirs(build_dir, exist_ok=True)
+        modfile = os.path.join(build_dir, "go.mod")
+        with open(os.path.join(HARNESS, "go.mod")) as fh:
+            mod = fh.read().replace("=> /repo", "=> " + os.path.realpath(REPO))
+        with open(modfile, "w") as fh:
+            fh.write(mod)
+    os.makedirs(build_dir, exist_ok=True)
+    out = os.path.join(build_dir, name)
+    lock = open(os.path.join(build_dir, ".lock"), "w")
     fcntl.flock(lock, fcntl.LOCK_EX)
     try:
         src_sum = os.path.join(REPO, "go.sum")
-        dst_sum = os.path.join(HARNESS, "go.sum")
+        dst_sum = os.path.join(HARNESS, "go.sum") if modfile is None else os.path.join(build_dir, "go.sum")
         if os.path.exists(src_sum):
             shutil.copyfile(src_sum, dst_sum)
         t0 = time.time()
         p = subprocess.run(
-            ["go1.26", "build", "-tags", tags, "-o", out, "./cmd/" + cmd_pkg],
+            ["go1.26", "build"] + (["-modfile=" + modfile] if modfile else []) + ["-tags", tags, "-o", out, "./cmd/" + cmd_pkg],
             cwd=HARNESS, env=go_env(), stdout=subprocess.PIPE, stderr=subprocess.STDOUT, text=True)
         if p.returncode != 0:
             raise Inconclusive("go build failed for %s:\n%s" % (cmd_pkg, p.stdout[-4000:]))
